@@ -551,7 +551,7 @@ def _pairs_model(chk, fi: FuncInfo, loop: ast.For) -> PairsModel:
         have = [k for v in sites.maps.values() for k in (v[3] if isinstance(v, tuple) and v[0] == "record" else (v if isinstance(v, list) else [v]))]
         if need not in have:
             raise NotReadable(f"no dictionary keyed by the point stores the {need} of a site")
-    ex = SX.Executor(nonnull=sites.nonnull, rewrite=sites.rewrite, helpers=new_helpers(chk.repo, fi))
+    ex = SX.Executor(nonnull=sites.nonnull, rewrite=lambda e: idioms(sites.rewrite(e)), helpers=new_helpers(chk.repo, fi))
     paths = ex.run(loop.body, constant_tuples(fi, loop))
     # lists the pair loop appends to: a local list, or a member of a local dict of lists (`contacts[kind].append(...)`)
     appended = sorted({e.recv for p in paths for e in p.effects if e.method == "append" and e.kind == "call" and e.recv.split("[")[0] in sites.nonnull and "." not in e.recv})
@@ -985,6 +985,13 @@ class _Idioms(ast.NodeTransformer):
                 return ast.List(elts=[], ctx=ast.Load())
         if isinstance(n.func, ast.Attribute) and n.func.attr == "get" and len(n.args) == 2 and isinstance(n.args[1], ast.Constant) and n.args[1].value is None and not n.keywords:
             n.args = [n.args[0]]
+        # {a, b}.isdisjoint(X) / X.isdisjoint({a, b})  ==  a not in X and b not in X
+        if isinstance(n.func, ast.Attribute) and n.func.attr == "isdisjoint" and len(n.args) == 1 and not n.keywords:
+            lit = lambda e: isinstance(e, (ast.Set, ast.Tuple, ast.List)) and 0 < len(e.elts) <= 4 and not any(isinstance(x, ast.Starred) for x in e.elts)
+            members, other = (n.func.value, n.args[0]) if lit(n.func.value) else ((n.args[0], n.func.value) if lit(n.args[0]) else (None, None))
+            if members is not None and not lit(other):
+                tests = [ast.Compare(left=x, ops=[ast.NotIn()], comparators=[copy.deepcopy(other)]) for x in members.elts]
+                return tests[0] if len(tests) == 1 else ast.BoolOp(op=ast.And(), values=tests)
         return n
 
 
